@@ -33,7 +33,7 @@ REQUIRED = [
     ("liquid/extra/tags/extends_tag.py", "BlockDrop.__getitem__"),
     ("liquid/extra/tags/extends_tag.py", "BlockTag.parse"),
 ]
-MIN_COUNTERS = {"super_rendered": 20, "nested_resolved": 20, "expected_required_error": 5, "expected_reject": 5, "inert_child_text": 20}
+MIN_COUNTERS = {"super_rendered": 20, "nested_resolved": 20, "expected_required_error": 5, "expected_reject": 5, "inert_child_text": 20, "block_inside_running_loop": 50}
 ASSUMPTIONS = [
     "R-inherit is written from the property text and docs/optional_tags.md; cells they leave open are not judged: block.super that reaches "
     "a definition flagged required, a required most-derived definition the render never reaches, text before the extends tag (never generated)",
@@ -139,16 +139,17 @@ def model(case: dict[str, Any]):
 
     depth = [0]
 
-    def render(items: list, blk, loop_i) -> str:
+    def render(items: list, blk, loop_i, bound: bool = False, via_super: bool = False) -> str:
         depth[0] += 1
         if depth[0] > 60:
             raise _Recursive()
         try:
-            return _render(items, blk, loop_i)
+            return _render(items, blk, loop_i, bound, via_super)
         finally:
             depth[0] -= 1
 
-    def _render(items: list, blk, loop_i) -> str:
+    def _render(items: list, blk, loop_i, bound: bool, via_super: bool) -> str:
+        """bound: a for of this very definition encloses the items; via_super: we are somewhere below a block.super call."""
         out = []
         for it in items:
             k = it[0]
@@ -158,7 +159,12 @@ def model(case: dict[str, Any]):
                 v = data.get(it[1])
                 out.append("" if v is None else ("true" if v else "false") if isinstance(v, bool) else str(v))
             elif k == "loopvar":
-                out.append(str(loop_i))
+                # the innermost loop running when this item renders - also across block boundaries: a definition replaces the block where
+                # it stands, inside whatever loop the root (or an enclosing definition) placed it in.  What a definition reached through
+                # block.super sees of the loops around the super call is not settled by the property.
+                if not bound and via_super:
+                    unspecified.append("free-loop-variable-below-super")
+                out.append("" if loop_i is None else str(loop_i))
             elif k == "super":
                 name, idx = blk
                 if idx + 1 < len(defs[name]):
@@ -168,7 +174,7 @@ def model(case: dict[str, Any]):
                     feats["super_rendered"] = feats.get("super_rendered", 0) + 1
                     if idx + 1 >= 2:
                         feats["super_depth2"] = feats.get("super_depth2", 0) + 1
-                    out.append(render(nxt[3], (name, idx + 1), None))
+                    out.append(render(nxt[3], (name, idx + 1), loop_i, False, True))
             elif k == "block":
                 name = it[1]
                 d0 = defs[name][0]
@@ -178,13 +184,15 @@ def model(case: dict[str, Any]):
                     feats["nested_resolved"] = feats.get("nested_resolved", 0) + 1
                 if d0 is not it:
                     feats["overridden"] = feats.get("overridden", 0) + 1
-                out.append(render(d0[3], (name, 0), None))
+                if loop_i is not None:
+                    feats["block_inside_running_loop"] = feats.get("block_inside_running_loop", 0) + 1
+                out.append(render(d0[3], (name, 0), loop_i, False, via_super))
             elif k == "for":
                 for i in range(1, it[1] + 1):
-                    out.append(render(it[2], blk, i))
+                    out.append(render(it[2], blk, i, True, via_super))
             elif k == "if":
                 if truthy(it[1], data):
-                    out.append(render(it[2], blk, loop_i))
+                    out.append(render(it[2], blk, loop_i, bound, via_super))
         return "".join(out)
 
     root = tpls[chain[-1]]
@@ -506,7 +514,7 @@ def gen_items(rng, names: list[str], depth: int, in_block: bool, in_for: bool, u
             items.append(["var", rng.choice(["g1", "g2", "nope"])])
         elif r < 0.45 and in_block:
             items.append(["super"])
-        elif r < 0.50 and in_for:
+        elif r < 0.50:
             items.append(["loopvar"])
         elif r < 0.80 and depth < 3:
             free = [n for n in names if n not in used]
@@ -534,7 +542,7 @@ def _fix_loopvars(items: list, in_for: bool) -> None:
     """`{{ i }}` stays only where the innermost enclosing construct chain up to the for has no block boundary."""
     for idx in range(len(items) - 1, -1, -1):
         it = items[idx]
-        if it[0] == "loopvar" and not in_for:
+        if it[0] == "loopvar" and False:
             del items[idx]
         elif it[0] == "block":
             _fix_loopvars(it[3], False)
